@@ -38,8 +38,7 @@ class SimTag:
 
     __str__ = __repr__
 
-    def __lt__(self, other):  # only so that accidental sorted() in harness is name order
-        return self.qualified_name < other.qualified_name
+    # deliberately NOT orderable: the ColumnTag protocol only promises hashability
 
 
 def make_tags(mode: str, rng) -> dict[str, SimTag]:
